@@ -629,9 +629,13 @@ def _impl(cases, shard=200, extra=None):
         payloads = [dict(extra, cases=[])]
     outs = common.run_impl_sharded('c15_impl.py', payloads)
     res = []
+    berr = []
     for o in outs:
         res += o['results']
-    return res, outs[0] if outs else {}
+        berr += o.get('builder_errors') or []
+    first = dict(outs[0]) if outs else {}
+    first['builder_errors'] = berr[:3]
+    return res, first
 
 
 def gen_cases(r, n_url, n_raw, n_cd, n_lib, n_split=0, n_sess=0):
@@ -719,27 +723,6 @@ def gen_fs_cases(r, n):
     return cases
 
 
-def os_type_domain(repo):
-    """application/tasks/writer.py can only produce os_type 'windows' or 'unix'"""
-    path = os.path.join(repo, 'wpull', 'application', 'tasks', 'writer.py')
-    try:
-        tree = ast.parse(open(path, encoding='utf-8').read())
-    except Exception as e:
-        return 'cannot read %s: %r' % (path, e)
-    found = []
-    for node in ast.walk(tree):
-        if isinstance(node, ast.Assign) and any(isinstance(t, ast.Name) and t.id == 'os_type' for t in node.targets):
-            v = node.value
-            if isinstance(v, ast.IfExp) and all(isinstance(x, ast.Constant) and x.value in ('windows', 'unix')
-                                                for x in (v.body, v.orelse)):
-                found.append(True)
-            else:
-                found.append(False)
-    if not found or not all(found):
-        return 'os_type assignment in application/tasks/writer.py is not a choice between "windows" and "unix"'
-    return None
-
-
 def _sizes(ctx):
     if ctx.thorough:
         return dict(n_url=14000, n_raw=4000, n_cd=5000, n_lib=2000, n_fs=300, n_split=5000, n_sess=4000)
@@ -773,9 +756,11 @@ def correspondence(ctx):
         disagreements.append({'note': "regex '.' excludes more than LF", 'impl': tb.get('nodot')})
     if not set(tb.get('sigma', [])) <= {0x3c3, 0x3c2}:
         disagreements.append({'note': 'final-sigma rule yields unexpected letters', 'impl': tb.get('sigma')})
-    dom = os_type_domain(ctx.repo)
-    if dom:
-        disagreements.append({'note': dom})
+    # the PathNamer of every case is built by the real FileWriterSetupTask from --restrict-file-names / -nd / -x / ... values
+    # (the translation of the options is inside the comparison; this replaces a static look at the os_type assignment)
+    if first.get('builder_errors'):
+        disagreements.append({'note': 'application/tasks/writer.py FileWriterSetupTask could not be driven with option values; '
+                                      'the PathNamer was constructed directly', 'errors': first['builder_errors']})
     sha_n = sha_bad = 0
     hyp_bad = 0
     for c, res in zip(cases, results):
